@@ -65,10 +65,14 @@ func runProgram(ctx *core.Ctx, p Program) {
 	}
 	_ = os.WriteFile(progressFile(ctx.Out), hx.MustJSON(p), 0o644)
 
-	var best, bad, aliased []Call
+	var best, bad, aliased, own []Call
 	bestOv, flagged, execs, aliasExecs := -1, 0, 0, 0
+	single := p.Kind == "slice" && len(p.Threads) == 1
 	ok := runBatch(&p, reps, func(h []Call, alias bool) {
 		execs++
+		if single && (own == nil || alias) {
+			own = h // one goroutine: also a case of the memory-level model (ownership clause)
+		}
 		if alias {
 			aliasExecs++
 			if aliased == nil || len(h) < len(aliased) {
@@ -87,6 +91,25 @@ func runProgram(ctx *core.Ctx, p Program) {
 		}
 	})
 	c := hx.Case{Kind: p.Kind, Input: hx.MustJSON(p), Facts: map[string]any{"kind": p.Kind, "tag": p.Tag}}
+	if ok && own != nil {
+		if term, fits := coqOwnCase(own); fits {
+			oc := hx.Case{Kind: "slicemem", Input: hx.MustJSON(p), Coq: term,
+				Facts:    map[string]any{"kind": "slicemem", "tag": p.Tag},
+				Observed: map[string]any{"history": textHistory(own)}}
+			ks := make([]string, len(p.Threads[0]))
+			nApp := 0
+			for i, o := range p.Threads[0] {
+				ks[i] = o.K
+				if o.K == "append" {
+					nApp++
+				}
+			}
+			oc.Class = "slicemem/" + strings.Join(ks, ",")
+			oc.Trivial = nApp == 0
+			ctx.Sink.Count("kind=slicemem")
+			ctx.Sink.Add(oc)
+		}
+	}
 	nops := 0
 	shape := make([]string, len(p.Threads))
 	for t, ops := range p.Threads {
@@ -315,7 +338,11 @@ func gen(ctx *core.Ctx) {
 	nseq := 150
 	// 4. longer histories
 	nlong := 0
+	// 5. ownership: one goroutine on slice.Slice, argument lists of 0..8 items; each is also a
+	// case of the memory-level model (CSliceMem)
+	nown := 250
 	if ctx.Thorough {
+		nown = 20000
 		nprog, reps = 100000, 40
 		nhot, hotReps, tplReps = 1500, 4000, 300000
 		nseq = 5000
@@ -324,6 +351,19 @@ func gen(ctx *core.Ctx) {
 	for i := 0; i < nseq && !aborted; i++ {
 		p := genProgram(r, kinds[i%3], 1, 12, r.Range(1, 3), false)
 		p.Reps, p.Tag = 1, "sequential"
+		runProgram(ctx, p)
+	}
+	for i := 0; i < nown && !aborted; i++ {
+		p := genProgram(r, "slice", 1, 12, 1, false)
+		for j := range p.Threads[0] {
+			if o := &p.Threads[0][j]; o.K == "append" && r.Chance(1, 3) {
+				o.Items = make([]int64, r.Intn(9))
+				for k := range o.Items {
+					o.Items[k] = int64(1000*(j+1) + k)
+				}
+			}
+		}
+		p.Reps, p.Tag = 1, "ownership"
 		runProgram(ctx, p)
 	}
 	for _, p := range templates() {
